@@ -290,3 +290,21 @@ func init() {
 		},
 	})
 }
+
+func init() {
+	register(map[string]externalFn{
+		// math/rand: a fixed value unless the harness asks for a symbolic one
+		"math/rand.Float64": func(fr *frame, a []value) value {
+			i := fr.i
+			if i.cfg.Params["symrand"] == 1 {
+				r := i.newVar("rand.Float64", types.Float64).(sv)
+				p := i.pool
+				i.assume(p.And(p.mk("fp.geq", SBool, r.t, p.FP(0)), p.mk("fp.lt", SBool, r.t, p.FP(1))))
+				return r
+			}
+			return 0.5
+		},
+		"(*internal/godebug.Setting).Value":         func(fr *frame, a []value) value { return "" },
+		"(*internal/godebug.Setting).IncNonDefault": func(fr *frame, a []value) value { return nil },
+	})
+}
